@@ -121,9 +121,12 @@ enum Origin {
     MockInDefaultBody,
     /// a mock error raised through a clone is caught; afterwards the test body panics
     CloneErrorThenUserPanic,
+    /// user panic inside the matcher of an ordered pattern, while a clone on another thread has
+    /// meanwhile completed the next ordered call (topology Caught only)
+    MatcherOrderedRaced,
 }
 
-const ORIGINS: [Origin; 23] = [
+const ORIGINS: [Origin; 24] = [
     Origin::UserBefore,
     Origin::UserAfter,
     Origin::Matcher,
@@ -147,7 +150,11 @@ const ORIGINS: [Origin; 23] = [
     Origin::MatcherOrdered,
     Origin::MockInDefaultBody,
     Origin::CloneErrorThenUserPanic,
+    Origin::MatcherOrderedRaced,
 ];
+
+static RACE_ENTERED: std::sync::atomic::AtomicBool = std::sync::atomic::AtomicBool::new(false);
+static RACE_GO: std::sync::atomic::AtomicBool = std::sync::atomic::AtomicBool::new(false);
 
 impl Origin {
     fn is_user(self) -> bool {
@@ -164,6 +171,7 @@ impl Origin {
                 | Origin::ByValueUser
                 | Origin::MatcherOrdered
                 | Origin::CloneErrorThenUserPanic
+                | Origin::MatcherOrderedRaced
         )
     }
     fn by_value(self) -> bool {
@@ -195,6 +203,7 @@ impl Origin {
             Origin::MatcherOrdered => "INJECTED: ordered matcher",
             Origin::MockInDefaultBody => "No mock implementation found.",
             Origin::CloneErrorThenUserPanic => "INJECTED: after a caught clone error",
+            Origin::MatcherOrderedRaced => "INJECTED: ordered matcher",
         }
     }
 }
@@ -270,6 +279,9 @@ fn applicable(o: Origin, t: Topo) -> bool {
     if o == Origin::CloneErrorThenUserPanic && matches!(t, Topo::OnWorkerThread | Topo::OriginalOnWorkerThread) {
         return false;
     }
+    if o == Origin::MatcherOrderedRaced {
+        return t == Topo::Caught;
+    }
     match t {
         Topo::Caught | Topo::CaughtLendingClone => o.is_user() && !matches!(o, Origin::UserBefore | Origin::UserAfter | Origin::CloneErrorThenUserPanic),
         Topo::CaughtRetry => matches!(o, Origin::Matcher | Origin::Answer | Origin::RealFn | Origin::DefaultBody | Origin::RetClone),
@@ -317,6 +329,22 @@ fn build(origin: Origin) -> Unimock {
         Origin::MatcherOrdered => c.push(KMock::po.next_call(&|m| {
             m.func(|_, _| panic!("INJECTED: ordered matcher"));
         }).returns(7u32)),
+        Origin::MatcherOrderedRaced => {
+            use std::sync::atomic::Ordering::SeqCst;
+            c.push(KMock::po.next_call(&|m| {
+                m.func(|_, _| {
+                    // the matcher of ordered position 1 is running: let the other thread make the
+                    // call for position 2, then panic
+                    RACE_ENTERED.store(true, SeqCst);
+                    while !RACE_GO.load(SeqCst) {
+                        std::thread::yield_now();
+                    }
+                    panic!("INJECTED: ordered matcher")
+                });
+            }).returns(7u32));
+            c.push(KMock::o1.next_call(matching!(_)).returns(4u32));
+            c.push(KMock::o2.next_call(matching!(_)).returns(5u32));
+        }
         _ => {}
     }
     Unimock::new(c)
@@ -360,6 +388,25 @@ fn act(u: &Unimock, origin: Origin, met: bool) -> u32 {
         Origin::NoDefaultImpl => u.nd(),
         Origin::NoOutput => u.pm(0),
         Origin::MatcherOrdered => u.po(0),
+        Origin::MatcherOrderedRaced => {
+            use std::sync::atomic::Ordering::SeqCst;
+            let c = u.clone();
+            std::thread::scope(|s| {
+                s.spawn(move || {
+                    while !RACE_ENTERED.load(SeqCst) {
+                        std::thread::yield_now();
+                    }
+                    let r = std::panic::catch_unwind(std::panic::AssertUnwindSafe(|| c.o1(0)));
+                    match r {
+                        Ok(v) => println!("RACED: ok {v}"),
+                        Err(p) => println!("RACED: err {}", vh::obs::payload_to_string(p).replace('\n', " | ")),
+                    }
+                    drop(c);
+                    RACE_GO.store(true, SeqCst);
+                });
+                u.po(0)
+            })
+        }
         Origin::MockInDefaultBody => u.dflt(),
         Origin::CloneErrorThenUserPanic => {
             let c = u.clone();
@@ -550,6 +597,14 @@ fn child(origin: Origin, topo: Topo, met: bool) -> ! {
                 let v = u.m(0);
                 println!("USABLE: {v}");
             }
+            if origin == Origin::MatcherOrderedRaced {
+                // the ordered sequence goes on where the completed calls left it
+                let r = std::panic::catch_unwind(std::panic::AssertUnwindSafe(|| u.o2(0)));
+                match r {
+                    Ok(v) => println!("AFTER: ok {v}"),
+                    Err(p) => println!("AFTER: err {}", vh::obs::payload_to_string(p).replace('\n', " | ")),
+                }
+            }
             // ... also for the very call that panicked: the same action, now without the injected
             // panic, must be answered as configured
             if topo == Topo::CaughtRetry {
@@ -653,6 +708,14 @@ fn judge(origin: Origin, topo: Topo, met: bool, r: &CellResult) -> Result<(), St
             if !met && !r.stdout.contains("USABLE: 1") {
                 return Err(format!("the mock did not answer after the caught panic: {}", r.stdout));
             }
+            if origin == Origin::MatcherOrderedRaced {
+                for want in ["RACED: ok 4", "AFTER: ok 5"] {
+                    if !r.stdout.lines().any(|l| l == want) {
+                        let got: Vec<&str> = r.stdout.lines().filter(|l| l.starts_with("RACED:") || l.starts_with("AFTER:")).collect();
+                        return Err(format!("a matcher panicked (and was caught) for ordered position 1 while another thread completed position 2; the sequence must go on with position 3 ({want} expected), got {got:?}"));
+                    }
+                }
+            }
             let retried = topo == Topo::CaughtRetry;
             if retried {
                 let want = match origin {
@@ -668,7 +731,7 @@ fn judge(origin: Origin, topo: Topo, met: bool, r: &CellResult) -> Result<(), St
                 }
             }
             // verdict reflects the calls actually matched: user panics are not recorded
-            let never_called = matches!(origin, Origin::ArgDebug | Origin::MatcherOrdered) || (origin == Origin::Matcher && !retried);
+            let never_called = matches!(origin, Origin::ArgDebug | Origin::MatcherOrdered | Origin::MatcherOrderedRaced) || (origin == Origin::Matcher && !retried);
             let verdict = r.stdout.lines().find(|l| l.starts_with("VERDICT:")).unwrap_or("");
             if never_called {
                 if !(verdict.starts_with("VERDICT: failed") && verdict.contains("was never called") && !verdict.contains("INJECTED")) {
@@ -705,7 +768,7 @@ fn judge(origin: Origin, topo: Topo, met: bool, r: &CellResult) -> Result<(), St
             } else {
                 // a user panic on a worker's clone leaves verification to judge the counts: the
                 // original reports what is unmet (and nothing when everything is met)
-                let unmet = !met || matches!(origin, Origin::Matcher | Origin::ArgDebug | Origin::MatcherOrdered);
+                let unmet = !met || matches!(origin, Origin::Matcher | Origin::ArgDebug | Origin::MatcherOrdered | Origin::MatcherOrderedRaced);
                 if unmet {
                     if r.status != Some(101) || r.reports.len() != 2 || !TEARDOWN_SENTENCES[2..].iter().any(|s| r.reports[1].contains(s)) {
                         return Err(format!("expected main's verification to report the unmet expectation (exit 101, second report with expectation lines), got status {:?}, reports {:?}", r.status, r.reports));
